@@ -1,5 +1,6 @@
 import Babble.Model.Quorum
 import Babble.Model.Median
+import Driver.HGEngine
 /-! Line-protocol driver: one operation per input line; for every line the driver prints the
     model's observations (lines starting with `O `) followed by a line containing a single `.`.
     Core Lean only (linked as an executable). -/
@@ -7,13 +8,17 @@ open Babble
 
 structure DState where
   ps : Quorum.PeerList := []
-deriving Inhabited
+  hg : HGState := {}
+
+instance : Inhabited DState := ⟨{}⟩
 
 def parseInt? (s : String) : Option Int := s.toInt?
 
 def stepLine (st : DState) (toks : List String) : DState × List String :=
   match toks with
   | ["CASE"] => ({}, [])
+  | "HG" :: rest => let (h, obs) := hgStep st.hg rest
+                    ({ st with hg := h }, obs)
   | ["Q", a, b] =>
     match a.toNat?, b.toNat? with
     | some lp, some lk => (st, [s!"O {Gen.superMajority lk} {Gen.trustCount lp lk}"])
